@@ -7,8 +7,11 @@ import json
 import hashlib
 
 HERE      = os.path.dirname(os.path.dirname(os.path.abspath(__file__)))
-EVIDENCE  = os.path.join(HERE, 'evidence')
-REPLAYS   = os.path.join(HERE, 'replays')
+# VERIF_OUT redirects evidence and replay files (used when the checks are run
+# against a mutated scratch copy, so that the evidence of /repo is kept)
+OUT       = os.environ.get('VERIF_OUT') or HERE
+EVIDENCE  = os.path.join(OUT, 'evidence')
+REPLAYS   = os.path.join(OUT, 'replays')
 FINDINGS  = os.path.join(HERE, 'known_findings.json')
 
 
